@@ -207,16 +207,24 @@ func solveOne(e *Enc, o *Obligation, idx int, opts solveOpts) {
 		file  string
 	}
 	ctx, cancel := context.WithCancel(context.Background())
-	ch := make(chan stageRes, 2)
+	ch := make(chan stageRes, 3)
 	n := 1
 	go func() { ch <- stageRes{runSolverCtx(ctx, solvers[0], fileB, opts.TimeoutS), "", fileB} }()
 	if fileI != "" {
-		n++
+		n += 2
 		go func() { ch <- stageRes{runSolverCtx(ctx, solvers[0], fileI, opts.TimeoutS), "/instantiated", fileI} }()
+		// the instance set is quantifier-free: the second solver is often quicker on bit-vector goals
+		go func() { ch <- stageRes{runSolverCtx(ctx, solvers[1], fileI, opts.TimeoutS), "/instantiated2", fileI} }()
 	}
 	var b, ai solverAnswer
 	for i := 0; i < n; i++ {
 		r := <-ch
+		if r.stage == "/instantiated2" {
+			if r.a.result != "unsat" {
+				continue // only a proof counts from the side runner
+			}
+			r.stage = "/instantiated"
+		}
 		if r.a.result == "unsat" {
 			cancel()
 			o.Seconds += r.a.seconds
